@@ -587,7 +587,7 @@ READER_OPS = ["peek", "peek", "read", "read", "read+h", "skip"]
 
 TAG_NUMS = list(range(0, 41)) + [126, 127, 128, 129, 255, 256, 16383, 16384, 2**21 - 1, 2**21, 2**28, 2**35]
 UNIV_NUMS = sorted({int(x) for x in A.TypeTagNumber})
-LENS = [0, 1, 126, 127, 128, 129, 255, 256, 257, 65535, 65536, 65537]
+LENS = [0, 1, 126, 127, 128, 129, 255, 256, 257, 16383, 16384, 32767, 32768, 65535, 65536, 65537]
 
 
 def _drain_contracts(acc, witness):
@@ -734,9 +734,10 @@ def run_shard(ctx: Ctx, acc: Acc):
             acc.count("child-refuses-sibling")
             for key, what in chk_child_refuses(r):
                 acc.violation(key, what, {"kind": "child"})
-    if ctx.thorough and ctx.shard == 0:
-        for ln in (2**24 - 1, 2**24, 2**24 + 1):
+    if ctx.shard in (0, 1, 2, 3):  # one multi-megabyte element per shard (size classes of 3 and 4 length octets)
+        for ln in ((2**21 - 1, 2**21, 2**24 - 1), (2**24,), (2**24 + 1,), (2**24 + 2**16 + 5,))[ctx.shard]:
             do("tag", (2, 5, False, ln, b"\x00"), True, "len-long")
+            acc.count("len>=2^21")
     # systematic tag matrix (shard 0 only, cheap)
     if ctx.shard == 0:
         for cls in range(4):
